@@ -82,6 +82,27 @@ class PolarizedRays(RealRays):
             self.i = (np.sum(np.abs(E1_x)**2, axis=1) +
                       np.sum(np.abs(E1_y)**2, axis=1)) * self._i0 / 2
 
+    def rotate_x(self, rx: float):
+        """Rotate the rays and their polarization matrices about the x-axis."""
+        super().rotate_x(rx)
+        c, s = np.cos(rx), np.sin(rx)
+        rot = np.array([[1.0, 0.0, 0.0], [0.0, c, -s], [0.0, s, c]])
+        self.p = np.matmul(rot, self.p)
+
+    def rotate_y(self, ry: float):
+        """Rotate the rays and their polarization matrices about the y-axis."""
+        super().rotate_y(ry)
+        c, s = np.cos(ry), np.sin(ry)
+        rot = np.array([[c, 0.0, s], [0.0, 1.0, 0.0], [-s, 0.0, c]])
+        self.p = np.matmul(rot, self.p)
+
+    def rotate_z(self, rz: float):
+        """Rotate the rays and their polarization matrices about the z-axis."""
+        super().rotate_z(rz)
+        c, s = np.cos(rz), np.sin(rz)
+        rot = np.array([[c, -s, 0.0], [s, c, 0.0], [0.0, 0.0, 1.0]])
+        self.p = np.matmul(rot, self.p)
+
     def update(self, jones_matrix: np.ndarray = None):
         """
         Update polarization matrices after interaction with surface.
